@@ -702,6 +702,16 @@ class BuildWorld(HistoryWorld):
             return
         if aim == 'range':
             t = rng.choice(['uint', 'int', 'var_uint', 'var_int', 'coins', 'address'])
+            if rng.random() < 0.12:
+                # a zero-width field holds nothing: only the value 0 could fit it (whether 0 itself is storable at width 0
+                # is a carve-out), every other value is out of range - at any fill level, also through addr_extern of length 0
+                v = rng.choice([1, -1, 5, 255, 1 << 64, -(1 << 200)])
+                tt = rng.choice(['uint', 'uint', 'int', 'ext'])
+                if tt == 'ext':
+                    q.append(dict(base, t='address', k='ext', n=0, v=abs(v), form=rng.choice(['obj', 'to_cell'])))
+                else:
+                    q.append(dict(base, t=tt, n=0, v=v))
+                return
             if t == 'uint':
                 n = max(1, min(rem, rng.choice(UINT_WIDTHS)))
                 q.append(dict(base, t='uint', n=n, v=rng.choice([-1, 1 << n, (1 << n) + 1, -(1 << n)])))
@@ -971,6 +981,9 @@ class BuildWorld(HistoryWorld):
             ctx.probe('fourth-reference')
         if reason == 'range':
             ctx.probe('out-of-range-value')
+            if op.get('n') == 0:
+                ctx.probe('non-zero-value-at-width-zero')
+                reason = 'range-width-zero'
         klass = value_class(op)
         if klass == 'minimal-length-top-bit-set':
             ctx.probe('var-int-top-bit-class')
